@@ -197,8 +197,8 @@ MUTANTS = [
     ('C16', 'premade_lib.py', '  for feature_config in model_config.feature_configs:\n    for regularizer_config in feature_config.regularizer_configs or []:\n      if not regularizer_config.name.startswith(\n          _INPUT_CALIB_REGULARIZER_PREFIX):\n        raise ValueError(\n            \'KroneckerFactoredLattice',
      '  for feature_config in model_config.feature_configs:\n    for regularizer_config in model_config.regularizer_configs or []:\n      if not regularizer_config.name.startswith(\n          _INPUT_CALIB_REGULARIZER_PREFIX):\n        raise ValueError(\n            \'KroneckerFactoredLattice', 'X9',
      'per-feature regularizer check reads the model-level list'),
-    ('C04', 'pwl_calibration_lib.py', '  bias = tf.minimum(bias, output_max)\n\n  delta = output_max - bias\n',
-     '  delta = output_max - bias\n  bias = tf.minimum(bias, output_max)\n', 'X5',
+    ('C04', 'pwl_calibration_lib.py', '  bias = tf.minimum(bias, output_max)\n\n  # Shrink heights only',
+     '  delta0 = output_max - bias\n  bias = tf.minimum(bias, output_max)\n  heights = heights + 0.0 * delta0\n\n  # Shrink heights only', 'X5',
      'head-room computed from the unclipped bias'),
     ('C05', 'pwl_calibration_layer.py', '      tiled_logits = np.tile(initial_logits, self.units)',
      '      tiled_logits = np.repeat(initial_logits, self.units)', 'E7',
